@@ -316,7 +316,7 @@ func spanCodec(r *core.Run, rule string) {
 	}
 	sort.Strings(bad)
 	r.Eval(n)
-	r.Floor(rule, "span encode/decode sites", n, 10)
+	r.Floor(rule, "span encode/decode sites", n, 6)
 	r.Check(rule, rule+"@file-format packages#span byte order", token.NoPos, len(bad) == 0,
 		fmt.Sprintf("all %d 64-bit span encode/decode sites use little-endian", n), "big-endian span codec at "+strings.Join(bad, ", "))
 }
